@@ -855,7 +855,7 @@ def suite_two_workers(tier, seed):
                     web.is_main_process.clear()
                     await web.start_mainprocess_tasks(st)
                 q = asyncio.Queue()
-                await st.subscribe(env.FakeClient("w%d" % i), "s", [{"kinds": [1]}], q)
+                await st.subscribe(env.FakeClient("w%d" % i), "s", [{"kinds": [1, 20001]}], q)
                 while True:                      # the stored answer (empty) is complete before anything is accepted
                     sid, ev = await asyncio.wait_for(q.get(), 20)
                     if ev is None:
@@ -916,10 +916,16 @@ def suite_two_workers(tier, seed):
                         sid, ev = q.get_nowait()
                         if ev is not None:
                             got[i].append(ev.id)
+            # a second process starting its own hub on the same port must not succeed (all workers have to meet at ONE hub)
+            second = notifier.NotifyServer()
+            second.start()
+            await asyncio.sleep(0.2)
+            second_hub_listening = not second._task.done()
             # phase 1: events accepted by random workers; some are for members only (the output validator withholds them from everybody here)
             for k, (w, c) in enumerate(script):
                 secret = c.endswith("s")
-                await submit(w, env.mk_event(k % 3, 1, env.NOW - 50 + k, [["t", "secret" if secret else "public"]], c), visible=not secret)
+                kind = 20001 if (k % 4 == 3 and not secret) else 1         # ephemeral events cross workers like any other (SQL keeps them until a pass)
+                await submit(w, env.mk_event(k % 3, kind, env.NOW - 50 + k, [["t", "secret" if secret else "public"]], c), visible=not secret)
             # phase 2: an event, its author's deletion, and the same event again (accepted again once it is gone): E, D, E everywhere
             w2 = script[-1][0]
             E = env.mk_event(1, 1, env.NOW - 20, [["t", "public"]], "again")
@@ -931,6 +937,17 @@ def suite_two_workers(tier, seed):
             await submit(w2, E)
             await collect(alive)
             phase2 = [list(g) for g in got]
+            # phase 2b: a receiving worker is busy (every query slot taken by long-running REQs) for 1.3 s while an id arrives:
+            # the announcement has to wait for a slot, not to be dropped
+            rcv = workers[-1]
+            nslots = rcv.query_slot._value
+            for _ in range(nslots):
+                await rcv.query_slot.acquire()
+            await submit(0 if len(workers) > 1 else 0, env.mk_event(2, 1, env.NOW - 8, [["t", "public"]], "while-busy"))
+            await asyncio.sleep(1.3)
+            for _ in range(nslots):
+                rcv.query_slot.release()
+            await collect(alive)
             left = None
             if len(workers) >= 3:
                 # phase 3: a worker that has announced events leaves; the others go on exchanging events
@@ -944,7 +961,7 @@ def suite_two_workers(tier, seed):
                 for k in range(3):
                     await submit(alive[k % len(alive)], env.mk_event(k % 3, 1, env.NOW - 5 + k, [["t", "public"]], "after-leave%d" % k))
                 await collect(alive)
-            return accepted, got, connected, bool(Config.should_run_notifier), early_failed, raised, left
+            return accepted, got, connected, bool(Config.should_run_notifier), early_failed, raised, left, second_hub_listening
         finally:
             notifier.NotifyClient.__init__, notifier.NotifyServer.__init__, notifier.asyncio = saved
             web.is_main_process.clear()
@@ -973,7 +990,7 @@ def suite_two_workers(tier, seed):
     for _ in range(2 if tier == "quick" else 12):
         n = rng.choice([2, 2, 3])
         script = [(rng.randrange(n), "w%d%s" % (k, "s" if rng.random() < 0.3 else "p")) for k in range(rng.randint(4, 10))]
-        accepted, got, connected, should, early_failed, raised, left = env.run(one(n, script))
+        accepted, got, connected, should, early_failed, raised, left, second_hub = env.run(one(n, script))
         s.count("early_announcement_failed" if early_failed else "early_announcement_sent")
         case = {"workers": n, "accepted_by": [w for w, _ in script]}
         s.case(case, nontrivial=len({w for w, _ in script}) > 1)
@@ -981,6 +998,9 @@ def suite_two_workers(tier, seed):
         if not should or not all(connected):
             s.violate("workers-not-connected", case, "run_notifier is configured but Config.should_run_notifier is %r / notifier connections: %r" % (should, connected))
             continue
+        if second_hub:
+            s.violate("second-hub-listening", case, "a second NotifyServer started on the port of the running hub and keeps serving: workers that connect to it "
+                      "never hear from the workers on the first hub")
         if raised:
             s.violate("worker-add-event-raised", case, "accepting an event raised on a worker whose earlier announcement had failed: " + raised[0], observed=raised[:3])
         for i, g in enumerate(got):
@@ -1981,6 +2001,92 @@ def suite_roles_forged(tier, seed, backends=("sql", "kv")):
     return s
 
 
+# ------------------------------------------------------------------------------------ C15: the accepted relay URLs are the configured ones, for good
+def suite_recipe_relay_urls(tier, seed, backends=("sql", "kv")):
+    s = Suite("oracle:accepted-relay-urls-stay-as-configured")
+    s.rule = ("the homeserver recipe storage (recipe.homeserver.Private*Storage with forward_events, forwarding itself stubbed out) with NIP-42 enabled "
+              "and relay_urls given as a list: a stranger publishes a relay list (kind 10002) naming its own relay, a whitelisted user mentions the "
+              "stranger (which forwards the note to that relay); afterwards an AUTH answer made out to the stranger's relay, correctly signed and "
+              "carrying this connection's challenge, must still be refused, the configured list and Authenticator.valid_urls must be unchanged, and an "
+              "answer made out to the configured URL must still be accepted; non-trivial always")
+    rng = rng_for(seed, "c15urls")
+
+    async def one(backend):
+        from nostr_relay.recipe import homeserver
+        from nostr_relay.config import Config
+        from nostr_relay.errors import AuthenticationError
+        url = "ws://relay.example/"
+        evil = "wss://evil.example/"
+        urls = [url]
+        env.load_config(authentication={"enabled": True, "relay_urls": urls, "actions": {"save": "a", "query": "a"}},
+                        pubkey_whitelist=[env.PUBS[0]], forward_events=True)
+        env.patch_clock()
+        sc = env.Scratch()
+        calls = []
+        saved = homeserver.PostSaveForward._bounce_to_relay
+
+        async def bounce(self, relay_url, event):
+            calls.append(relay_url)
+            return True
+        homeserver.PostSaveForward._bounce_to_relay = bounce
+        try:
+            if backend == "sql":
+                from nostr_relay.storage import get_metadata
+                o = {"sqlalchemy.url": "sqlite+aiosqlite:///" + sc.path(".sqlite3"), "validators": ["nostr_relay.validators.is_signed"]}
+                Config.storage = dict(o)
+                st = homeserver.PrivateDBStorage(o)
+                await st.setup()
+                async with st.db.begin() as conn:
+                    await conn.run_sync(get_metadata().create_all)
+                st._backend = "sql"
+            else:
+                import lmdb
+                import os
+                from nostr_relay.storage import kv
+                env.stub_analyze(kv)
+                env._KV_SEQ[0] += 1
+                path = "shim-recipe-%d-%d" % (os.getpid(), env._KV_SEQ[0])
+                lmdb.wipe(path)
+                o = {"class": "nostr_relay.recipe.homeserver.PrivateLMDBStorage", "path": path, "validators": ["nostr_relay.validators.is_signed"]}
+                Config.storage = dict(o)
+                st = homeserver.PrivateLMDBStorage(o)
+                await st.setup()
+                from . import app as _app
+                _app.instrument(st, "kv")
+            try:
+                await st.add_event(env.mk_event(2, 10002, env.NOW - 20, [["r", evil]], "stranger's relays"))
+                await env.quiesce(st)
+                await st.add_event(env.mk_event(0, 1, env.NOW - 10, [["p", env.PUBS[2]]], "hello stranger %d" % rng.randrange(10 ** 6)))
+                await env.quiesce(st)
+                await asyncio.sleep(0.05)
+                ch = st.authenticator.get_challenge("9.9.9.9")
+                out = {"forwarded_to": sorted(set(calls)), "configured_after": list(Config.authentication.get("relay_urls")), "valid_urls_after": list(st.authenticator.valid_urls)}
+                for name, relay in (("foreign", evil), ("configured", url)):
+                    a = env.mk_event(2, 22242, env.NOW, [["relay", relay], ["challenge", ch]], "")
+                    try:
+                        tok = await st.authenticator.authenticate(a, challenge=ch)
+                        out[name] = "accepted:" + str(tok.get("pubkey"))[:8]
+                    except AuthenticationError as ex:
+                        out[name] = "refused"
+                    except Exception as ex:      # noqa
+                        out[name] = "error:" + type(ex).__name__
+                return out
+            finally:
+                await env.close(st)
+        finally:
+            homeserver.PostSaveForward._bounce_to_relay = saved
+            sc.close()
+    for backend in backends:
+        obs = env.run(one(backend))
+        case = {"backend": backend}
+        s.case(case, nontrivial=bool(obs["forwarded_to"]))
+        s.count("forwarded" if obs["forwarded_to"] else "not_forwarded")
+        if obs["foreign"] != "refused" or not obs["configured"].startswith("accepted") or obs["configured_after"] != ["ws://relay.example/"] or obs["valid_urls_after"] != ["ws://relay.example/"]:
+            s.violate("auth:foreign-relay-accepted", case, "after client activity the set of relay URLs an AUTH answer may name is no longer the configured one", observed=obs,
+                      expected={"foreign": "refused", "configured": "accepted", "valid_urls_after": ["ws://relay.example/"]})
+    return s
+
+
 # ------------------------------------------------------------------------------------ C12
 CAP_SCRIPT = r'''
 import sys, json, asyncio, logging
@@ -2815,6 +2921,7 @@ def registry():
         "oracle:limits-default-when-not-configured": suite_config_defaults,
         "oracle:roles-only-from-the-relay": suite_roles_forged,
         "oracle:refusal-is-not-remembered": suite_policy_relaxed,
+        "oracle:accepted-relay-urls-stay-as-configured": suite_recipe_relay_urls,
         "oracle:limit-cap-plain-subscribe": suite_cap_plain_subscribe,
         "oracle:announce-every-accepted-event": suite_announce_all_accepted,
         "oracle:removed-unreachable-after-read": suite_removed_unreachable_after_read,
